@@ -124,6 +124,10 @@ func cmdCheck(args []string) {
 		runs = rp.Thorough
 	}
 	evPath := filepath.Join(verifRoot, "evidence", *prop+".json")
+	if d := os.Getenv("VERIF_EVIDENCE_DIR"); d != "" { // runs against scratch copies of the repository (seed / neutral checks) keep their evidence apart
+		os.MkdirAll(d, 0o755)
+		evPath = filepath.Join(d, *prop+".json")
+	}
 	os.MkdirAll(filepath.Dir(evPath), 0o755)
 	os.Remove(evPath)
 
